@@ -216,6 +216,7 @@ pub fn run_c06(out: &mut Out, tier: &str, seed: u64) {
     crate::objapi::long_inputs(out, &mut rng, true);
     crate::objapi::mixed_order_signatures(out, &mut rng);
     crate::consts::check(out, &["CRYPTO_SIGN"]);
+    crate::objapi::sign_modes_and_chunks(out, &mut rng);
 }
 
 /// honest keys whose public-key encoding has a rare byte pattern (top byte 0x7f/0x00/0xff, low byte
